@@ -156,6 +156,20 @@ Theorem c10_stream_close_request_once : forall f evs i, (ncloseReq i (snd (run (
 Proof. intros f evs i. exact (closereq_run evs (init f) i). Qed.
 Print Assumptions c10_stream_close_request_once.
 
+(* A stream Close is final WHATEVER the broker answers to the close request: success or a failure
+   result code (Close then returns the FailedMessageError) - either way the stream context is cancelled,
+   exactly one closed event is registered, and a later Close of the same stream writes nothing
+   (c10_stream_close_request_once and c10_stream_closed_event_once cover the refused answer too: it is one
+   more event of the history). *)
+Theorem c10_stream_close_final_whatever_the_answer : forall c i s, find_s i (c_streams c) = Some s ->
+  s_phase s = SDraining -> s_held s = c_gen c -> writable c = true ->
+  forall e, e = EStreamCloseResp i \/ e = EStreamCloseRefused i ->
+  snd (step c e) = [OStreamClosed i false] /\
+  (exists s', find_s i (c_streams (fst (step c e))) = Some s' /\ s_phase s' = SClosed true true) /\
+  snd (step (fst (step c e)) (EStreamClose i)) = [].
+Proof. exact stream_close_final_whatever_the_answer. Qed.
+Print Assumptions c10_stream_close_final_whatever_the_answer.
+
 Theorem c10_overlapping_close_once :
   let r := run (init faithful) [EStart 0 KOpenUp; EWake 0; EResp 0; EWrite 0;
                                 EStreamClose 0; EStreamClose 0; EStreamClose 0; EStreamCloseResp 0; EStreamCloseResp 0;
